@@ -2,38 +2,19 @@
 C13 — memory and communication placement follow the KAISA strategy.
 Over M-Precond (the distributed state machine tied to the code by the correspondence, which
 compares holdings, memory_usage() and every collective's group/size per rank).
-Property theorems only; helpers in Lemmas/Holdings.lean.
+Property theorems only; helpers in Lemmas/Holdings.lean, which also holds the definitions used by
+the statements (`noLoad`, `hasStep`, `AsgOK`, `isFactorTraffic`, `isInverseTraffic`, `isGradTraffic`).
 -/
 import KfacVerif.Lemmas.Holdings
 
 namespace KV.C13
 open KV KV.Precond
 
-/-- histories of the statement: construction followed by training passes, steps, eval passes,
-    reset_batch, memory queries, state_dict and scheduler changes (no checkpoint load: loading
-    recomputes second-order data on every rank, which is outside C13) -/
-def noLoad : List Op → Prop
-  | [] => True
-  | .saveLoad _ _ :: _ => False
-  | _ :: t => noLoad t
-
-def hasStep : List Op → Bool
-  | [] => false
-  | .step :: _ => true
-  | _ :: t => hasStep t
-
-structure AsgOK (c : Cfg) : Prop where
-  workers_lt : ∀ l r, r ∈ c.asg.workers l → r < c.world
-  invA_mem : ∀ l, c.asg.invA l ∈ c.asg.workers l
-  invG_mem : ∀ l, c.asg.invG l ∈ c.asg.workers l
-  /-- without inverse broadcasts (MEM-OPT) the inverse worker is the only gradient worker -/
-  nobi_single : c.asg.bcastInv = false → ∀ l, c.asg.workers l = [c.asg.invA l] ∧ c.asg.invG l = c.asg.invA l
-
 /-- **only gradient workers ever hold second-order data** (any history without a checkpoint load) -/
 theorem holds_only_workers (c : Cfg) (hc : AsgOK c) (h : Hyper) (ops : List Op) (hn : noLoad ops)
     (r l : Nat) (hh : holdsSecondOrder c (run c (St.init c h) ops) r l = true) :
-    r ∈ c.asg.workers l := by
-  sorry
+    r ∈ c.asg.workers l :=
+  only_workers c hc h ops hn r l hh
 
 /-- **every gradient worker holds it once a step has been taken** -/
 theorem workers_hold_after_step (c : Cfg) (hc : AsgOK c) (h : Hyper) (ops : List Op) (hn : noLoad ops)
@@ -41,47 +22,39 @@ theorem workers_hold_after_step (c : Cfg) (hc : AsgOK c) (h : Hyper) (ops : List
     (r l : Nat) (hl : l < c.layers.length) (hr : r ∈ c.asg.workers l)
     (hw : c.world = (run c (St.init c h) ops).ranks.length) :
     holdsSecondOrder c (run c (St.init c h) ops) r l = true := by
-  sorry
-
-/-- the three kinds of traffic -/
-def isFactorTraffic (c : Cfg) (m : List Nat) (d : Desc) : Prop :=
-  d.kind = .allreduce ∧ m = worldRanks c ∧ d.esize = c.fe
-def isInverseTraffic (c : Cfg) (m : List Nat) (d : Desc) : Prop :=
-  d.kind = .broadcast ∧ d.esize = c.ie ∧ ∃ l, m = c.asg.workers l ∧ (d.root = c.asg.invA l ∨ d.root = c.asg.invG l)
-def isGradTraffic (c : Cfg) (m : List Nat) (d : Desc) : Prop :=
-  d.kind = .broadcast ∧ d.esize = c.ge ∧ ∃ r0 l, m = c.asg.recv r0 ∧ d.root = c.asg.src r0 l ∧
-    d.elems = (c.layers.getD l ⟨0, 0⟩).gDim * (c.layers.getD l ⟨0, 0⟩).aDim
+  have _ := hw
+  exact workers_hold c hc h ops hn hs hne r l hl hr
 
 /-- **every collective is one of: a factor all-reduce over the whole world, an inverse broadcast
     inside a gradient-worker group rooted at an inverse worker, a gradient broadcast inside a
     receiver group rooted at its source** — for every history whatsoever -/
 theorem traffic_classified (c : Cfg) (h : Hyper) (ops : List Op) (m : List Nat) (d : Desc)
     (hm : GAct.issue m d ∈ (run c (St.init c h) ops).acts) :
-    isFactorTraffic c m d ∨ isInverseTraffic c m d ∨ isGradTraffic c m d := by
-  sorry
+    isFactorTraffic c m d ∨ isInverseTraffic c m d ∨ isGradTraffic c m d :=
+  classified c h ops m d hm
 
 /-- **never under MEM-OPT**: without `broadcast_inverses` there is no inverse traffic at all
     (as long as no checkpoint is loaded — loading broadcasts only when `broadcast_inverses`) -/
 theorem no_inverse_traffic (c : Cfg) (hb : c.asg.bcastInv = false) (h : Hyper) (ops : List Op)
     (m : List Nat) (d : Desc) (hm : GAct.issue m d ∈ (run c (St.init c h) ops).acts) :
-    isFactorTraffic c m d ∨ isGradTraffic c m d := by
-  sorry
+    isFactorTraffic c m d ∨ isGradTraffic c m d :=
+  no_inverse c hb h ops m d hm
 
 /-- **never under COMM-OPT**: without `broadcast_gradients` there is no gradient traffic -/
 theorem no_gradient_traffic (c : Cfg) (hb : c.asg.bcastGrad = false) (h : Hyper) (ops : List Op)
     (m : List Nat) (d : Desc) (hm : GAct.issue m d ∈ (run c (St.init c h) ops).acts) :
-    isFactorTraffic c m d ∨ isInverseTraffic c m d := by
-  sorry
+    isFactorTraffic c m d ∨ isInverseTraffic c m d :=
+  no_gradient c hb h ops m d hm
 
 /-- **a world of one communicates nothing** -/
-theorem world_one_silent (c : Cfg) (hw : c.world = 1) (hwk : ∀ l, (c.asg.workers l).length ≤ 1)
+theorem world_one_silent (c : Cfg) (hw : c.world = 1) (hwk : ∀ l, (c.asg.workers l).length = 1)
     (hrv : ∀ r, (c.asg.recv r).length ≤ 1) (h : Hyper) (ops : List Op) :
-    ∀ a ∈ (run c (St.init c h) ops).acts, ∀ m d, a ≠ GAct.issue m d := by
-  sorry
+    ∀ a ∈ (run c (St.init c h) ops).acts, ∀ m d, a ≠ GAct.issue m d :=
+  world_one_silent' c hw hwk hrv h ops
 
 /-- **symmetry-aware mode sends n(n+1)/2 elements per symmetric n × n matrix** … -/
-theorem tri_elems (n : Nat) : triElems n true = n * (n + 1) / 2 ∧ triElems n false = n * n := by
-  sorry
+theorem tri_elems (n : Nat) : triElems n true = n * (n + 1) / 2 ∧ triElems n false = n * n :=
+  tri n
 
 /-- … for every factor, when un-bucketed: a factor all-reduce carries exactly `triElems n symAware`
     elements for one of the layer's two factor sizes (a bucket carries a sum of such counts) -/
@@ -90,14 +63,14 @@ theorem factor_allreduce_elems (c : Cfg) (hu : c.bucketed = false) (h : Hyper) (
     (hk : d.kind = .allreduce) :
     ∃ l, l < c.layers.length ∧
       (d.elems = triElems (c.layers.getD l ⟨0, 0⟩).aDim c.symAware ∨
-       d.elems = triElems (c.layers.getD l ⟨0, 0⟩).gDim c.symAware) := by
-  sorry
+       d.elems = triElems (c.layers.getD l ⟨0, 0⟩).gDim c.symAware) :=
+  allreduce_elems c hu h ops m d hm hk
 
 /-- **reported memory = bytes of what is held**: the total is the sum of the six categories, and a
     rank that holds nothing for a layer is charged nothing for it -/
 theorem mem_total (c : Cfg) (s : St) (r : Nat) :
     ((memBytes c s r).find? (·.1 == "total")).map (·.2) =
-      some ((((memBytes c s r).filter (·.1 != "total")).map (·.2)).sum) := by
-  sorry
+      some ((((memBytes c s r).filter (·.1 != "total")).map (·.2)).sum) :=
+  mem_total' c s r
 
 end KV.C13
